@@ -66,6 +66,24 @@ theorem runFrom_spec (t : Table) (fail : Nat → Bool) :
       split
       · exact exit_spec t held freed l hl hn hd
       · exact ih (i + 1) held freed hrest hn hd
+    | acqp r l =>
+      simp only [wfFrom, Bool.and_eq_true, Bool.not_eq_true', List.contains_eq_mem, decide_eq_false_iff_not] at hw
+      obtain ⟨⟨⟨h1, h2⟩, hl⟩, hrest⟩ := hw
+      have hn' : (held ++ [r]).Nodup := by
+        rw [List.nodup_append]
+        refine ⟨hn, by simp, ?_⟩
+        intro a ha b hb
+        simp at hb; subst hb
+        intro e; subst e; exact h1 ha
+      have hd' : ∀ q, q ∈ freed → q ∉ held ++ [r] := by
+        intro q hq
+        simp only [List.mem_append, List.mem_singleton, not_or]
+        refine ⟨hd q hq, ?_⟩
+        intro e; subst e; exact h2 hq
+      simp only [runFrom]
+      split
+      · exact exit_spec t (held ++ [r]) freed l hl hn' hd'
+      · exact ih (i + 1) (held ++ [r]) freed hrest hn' hd'
     | rel r =>
       simp only [wfFrom, Bool.and_eq_true, List.contains_eq_mem, decide_eq_true_eq] at hw
       obtain ⟨_, hrest⟩ := hw
@@ -100,6 +118,16 @@ theorem ok_no_hard_failure (t : Table) (fail : Nat → Bool) :
           have := ih (i + 1) _ _ hk j op (by simpa using hj) hh
           rw [show i + (j + 1) = i + 1 + j by omega]; exact this
     | guard l =>
+      simp only [runFrom] at hk
+      split at hk
+      · simp [exit] at hk
+      · rename_i hf
+        cases j with
+        | zero => simpa using hf
+        | succ j =>
+          have := ih (i + 1) _ _ hk j op (by simpa using hj) hh
+          rw [show i + (j + 1) = i + 1 + j by omega]; exact this
+    | acqp r l =>
       simp only [runFrom] at hk
       split at hk
       · simp [exit] at hk
